@@ -61,10 +61,15 @@ pub enum Fault {
     BadUtf8EntityInName(u8),
     /// arbitrary (long, non-ASCII) text where the weight should be
     ArbitraryWeightText(u8, String),
+    /// a second <graph> after the first one, with optional parse.nodes / parse.edges hints
+    SecondGraph { nodes: u8, edges: u8, parse_nodes: Option<i64>, parse_edges: Option<i64>, directed: bool },
 }
 
 #[derive(Clone, Debug, PartialEq, Serialize, Deserialize)]
 pub struct DocAst {
+    /// GraphML's optional parse hints on the <graph> element (values need not be truthful)
+    #[serde(default)]
+    pub parse_hints: Option<(i64, i64, u8)>,
     pub prolog: bool,
     pub doctype: bool,
     /// id of the weight key; "weight" may be used without a declaration
@@ -191,6 +196,12 @@ pub fn write_doc(d: &DocAst, fault: Option<&Fault>) -> String {
         Some(Fault::GraphWithoutEdgedefault) => {}
         Some(Fault::InvalidEdgedefault(k)) => ga.push(("edgedefault".into(), ["Directed", "", "both", "undirected ", "true"][*k as usize % 5].into())),
         _ => ga.push(("edgedefault".into(), if d.directed { "directed".into() } else { "undirected".into() })),
+    }
+    if let Some((pn, pe, order)) = &d.parse_hints {
+        ga.push(("parse.nodes".into(), pn.to_string()));
+        ga.push(("parse.edges".into(), pe.to_string()));
+        ga.push(("parse.order".into(), ["nodesfirst", "adjacencylist", "free"][*order as usize % 3].into()));
+        ga.push(("parse.nodeids".into(), "free".into()));
     }
     w.s.push_str("<graph");
     w.attrs(ga);
@@ -343,6 +354,24 @@ pub fn write_doc(d: &DocAst, fault: Option<&Fault>) -> String {
         _ => {}
     }
     w.s.push_str("</graph>");
+    if let Some(Fault::SecondGraph { nodes, edges, parse_nodes, parse_edges, directed }) = fault {
+        w.s.push_str(&format!("<graph id=\"G2\" edgedefault=\"{}\"", if *directed { "directed" } else { "undirected" }));
+        if let Some(p) = parse_nodes {
+            w.s.push_str(&format!(" parse.nodes=\"{}\"", p));
+        }
+        if let Some(p) = parse_edges {
+            w.s.push_str(&format!(" parse.edges=\"{}\"", p));
+        }
+        w.s.push('>');
+        for i in 0..(*nodes % 6) {
+            w.s.push_str(&format!("<node id=\"g2n{}\"/>", i));
+        }
+        for i in 0..(*edges % 6) {
+            let m = (*nodes % 6).max(1);
+            w.s.push_str(&format!("<edge source=\"g2n{}\" target=\"g2n{}\"/>", i % m, (i + 1) % m));
+        }
+        w.s.push_str("</graph>");
+    }
     if d.style & 8 == 8 {
         w.s.push('\n');
     }
@@ -409,15 +438,15 @@ pub fn doc() -> impl Strategy<Value = DocAst> {
         proptest::option::weighted(0.3, "[A-Za-z]{1,3}"),
         prop::bool::weighted(0.3),
         any::<u8>(),
-        vec(item(), 0..10),
+        (vec(item(), 0..10), proptest::option::weighted(0.25, (prop_oneof![0i64..12, Just(-1i64), Just(1_000_000i64)], 0i64..12, any::<u8>()))),
     )
-        .prop_map(|(prolog, doctype, weight_key, declare, key_with_default, mut other_keys, directed, graph_id, self_closing_empty_graph, style, items)| {
+        .prop_map(|(prolog, doctype, weight_key, declare, key_with_default, mut other_keys, directed, graph_id, self_closing_empty_graph, style, (items, parse_hints))| {
             // a non-default key id must be declared; "weight" may go undeclared
             let declare_weight_key = declare || weight_key != "weight";
             // an extra key that also declares attr.name=weight for edges would redefine the weight key
             other_keys.retain(|(id, for_node, name)| !(name == "weight" && !*for_node) && *id != weight_key);
             other_keys.dedup_by(|a, b| a.0 == b.0);
-            DocAst { prolog, doctype, weight_key, declare_weight_key, key_with_default, other_keys, directed, graph_id, self_closing_empty_graph, style, items }
+            DocAst { parse_hints, prolog, doctype, weight_key, declare_weight_key, key_with_default, other_keys, directed, graph_id, self_closing_empty_graph, style, items }
         })
 }
 
@@ -447,6 +476,8 @@ pub fn fault() -> impl Strategy<Value = Fault> {
         any::<u8>().prop_map(Fault::MismatchedEndTag),
         any::<u8>().prop_map(Fault::SelfClosingWeightData),
         any::<u8>().prop_map(Fault::BadUtf8EntityInName),
+        (any::<u8>(), any::<u8>(), proptest::option::of(-2i64..12), proptest::option::of(-2i64..12), any::<bool>())
+            .prop_map(|(nodes, edges, parse_nodes, parse_edges, directed)| Fault::SecondGraph { nodes, edges, parse_nodes, parse_edges, directed }),
         (any::<u8>(), prop_oneof![
             "\\PC{0,90}",
             "[a-zé中\u{1F600} ]{30,90}",
